@@ -520,7 +520,7 @@ pub fn oracle_min_receive(c: &PuCtx, rec: &mut Rec) {
 }
 
 pub fn jobs(tier: Tier) -> Vec<Job> {
-    let routes = PuChecker { name: "c13-pu-routes".into(), seeds: vec!["S2", "S4"], alpha: Alpha::SwapFocus, oracles: vec![oracle_min_receive] };
+    let routes = PuChecker { name: "c13-pu-routes".into(), seeds: vec!["S2", "S4"], alpha: Alpha::SwapFocus, oracles: vec![oracle_min_receive, oracle_default_slippage] };
     vec![
         grid_job(
             "c13-protection-grid",
